@@ -41,6 +41,15 @@ int main() {
     { Modular<RecInt::ruint<7> > F(RecInt::ruint<7>(3)); show("Modular<ruint<7>>::init(Integer)", F, Integer(1) << 128, "2^128", "1"); }
     { Modular<RecInt::ruint<7> > F(RecInt::ruint<7>(7)); show("Modular<ruint<7>>::init(int32_t)", F, (int32_t)INT32_MIN, "-2^31", "5"); }
     { Montgomery<int32_t> F(3);         show("Montgomery<int32_t>::init(float)", F, 4294967296.0f, "2^32", "1"); }
+    { Montgomery<int32_t> F(3);         show("Montgomery<int32_t>::init(unsigned long long)", F, (unsigned long long)1 << 63, "2^63", "2"); }
+    { ModularBalanced<double> F(5);     show("ModularBalanced<double>::init(unsigned long long)", F, ((unsigned long long)1 << 63) + 1, "2^63+1", "-1"); }
+    { ModularBalanced<int64_t> F(5);    show("ModularBalanced<int64_t>::init(uint64_t)", F, ((uint64_t)1 << 63) + 1, "2^63+1", "-1"); }
+    { Modular<Log16> F(3);              show("Modular<Log16>::init(double)", F, 18446744073709551616.0, "2^64", "1"); }
+    { Montgomery<int32_t> F(3);         show("Montgomery<int32_t>::init(float)", F, 18446744073709551616.0f, "2^64", "1"); }
+    { ModularExtended<double> F(2);     show("ModularExtended<double>::init(uint64_t)", F, (uint64_t)9007199254740993ULL, "2^53+1", "1"); }
+    { ModularExtended<double> F(2);     show("ModularExtended<double>::init(Integer)", F, (Integer(1) << 100) + 1, "2^100+1", "1"); }
+    { ModularExtended<float> F(2);      show("ModularExtended<float>::init(Integer)", F, Integer(16777217), "2^24+1", "1"); }
+    { ModularExtended<float> F(3);      show("ModularExtended<float>::init(float)", F, 4294967296.0f, "2^32", "1"); }
     std::cout << "GFqDom<int32_t>(3,1)::init(int32_t -2^31): " << std::flush;
     { GFqDom<int32_t> F(3, 1); GFqDom<int32_t>::Element e; F.init(e, (int32_t)INT32_MIN); Integer v; F.convert(v, e); std::cout << v << " (expected 1)\n"; }
     return 0;
